@@ -96,6 +96,9 @@ def r1_codec(ctx) -> None:
         e = ns.assigns[e.attr]
       else:
         break
+    if isinstance(e, ast.BinOp) and isinstance(e.op, ast.Add):
+      l_, r_ = const_of(e.left), const_of(e.right)
+      return l_ + r_ if l_ is not None and r_ is not None else None
     return e.value if isinstance(e, ast.Constant) and isinstance(e.value, str) else None
   # the escape table: a str.maketrans({...}) bound to a class attribute of Namespace or to a module-level name
   tables = {}
@@ -116,12 +119,25 @@ def r1_codec(ctx) -> None:
     raise AnalysisError('Namespace.encode not found')
   # separator = the constant prepended to each component in encode()
   sep = None
+
+  def translated(e):
+    """The `.translate(table)` call an operand denotes: directly, or as the element variable of a comprehension over a
+    local list of translated components (`[sep + c for c in escaped]`, `escaped = [c.translate(t) for c in ...]`)."""
+    if isinstance(e, ast.Call) and isinstance(e.func, ast.Attribute) and e.func.attr == 'translate':
+      return e
+    if isinstance(e, ast.Name):
+      for comp in (x for x in ast.walk(enc.node) if isinstance(x, (ast.ListComp, ast.GeneratorExp))):
+        for g_ in comp.generators:
+          if isinstance(g_.target, ast.Name) and g_.target.id == e.id:
+            src_ = flow.resolve_local(enc.node, g_.iter)
+            if isinstance(src_, (ast.ListComp, ast.GeneratorExp)) and len(src_.generators) == 1 and not src_.generators[0].ifs \
+                and not g_.ifs:
+              return translated(src_.elt)
+    return None
   for n in ast.walk(enc.node):
-    if isinstance(n, ast.BinOp) and isinstance(n.op, ast.Add) and const_of(n.left) is not None \
-        and isinstance(n.right, ast.Call) \
-        and isinstance(n.right.func, ast.Attribute) and n.right.func.attr == 'translate':
+    if isinstance(n, ast.BinOp) and isinstance(n.op, ast.Add) and const_of(n.left) is not None and translated(n.right) is not None:
       sep = const_of(n.left)
-      ok_table = any((dotted(a) or '').rsplit('.', 1)[-1] == table_name for a in n.right.args)
+      ok_table = any((dotted(a) or '').rsplit('.', 1)[-1] == table_name for a in translated(n.right).args)
       ctx.check(ok_table, 'R1', 'encode: every component goes through the escape table', n,
                 'component.translate(_ns_repr_table) prefixed by the separator',
                 'encode does not escape components with _ns_repr_table', construct=n, func=enc.qualname)
@@ -193,6 +209,17 @@ def r2_upsert(ctx) -> None:
         elif isinstance(arg, (ast.GeneratorExp, ast.ListComp)) and isinstance(arg.elt, ast.Tuple) and len(arg.elt.elts) == 2 \
             and isinstance(arg.elt.elts[0], ast.Tuple) and len(arg.generators) == 1 and not arg.generators[0].ifs:
           stores.append((st.lineno, arg.generators[0].iter, arg.elt.elts[0].elts, arg.elt.elts[1], unparse(dct, 0)))
+    # one loop / comprehension over `itertools.chain(A, B)` fills the dictionary from A, then from B
+    expanded = []
+    for s_ in stores:
+      it = s_[1]
+      if isinstance(it, ast.Call) and (dotted(it.func) or '').endswith('chain') and it.args and not it.keywords \
+          and not any(isinstance(a_, ast.Starred) for a_ in it.args):
+        for k_, a_ in enumerate(it.args):
+          expanded.append((s_[0] + k_ / 100.0, a_) + tuple(s_[2:]))
+      else:
+        expanded.append(s_)
+    stores = expanded
     stores.sort(key=lambda x: x[0])
     problems = []
     if len(stores) < 2:
